@@ -241,4 +241,27 @@ RbfRule == (last.op = "submit" /\ last.ok /\ last.repl # {}) =>
               /\ conf.rbf
               /\ Fee[last.t] >= SumF(Fee, last.repl) + RbfExtra(last.t, conf)
               /\ last.repl \cap pool = {}
+-----------------------------------------------------------------------------
+(* C12: after the chain tip changed in any way and the pool has processed the change (the pool's `chain` is the *)
+(* new main chain), the pool agrees with it.                                                                   *)
+NoCommitted == pool \cap Committed(chain) = {}
+\* every input and dep exists: live on the chain, or created by a pooled transaction; no input is spent twice
+NoDeadOrUnknown == \A t \in pool : \A o \in Ins[t] \cup Deps[t] : Creator(o) \in pool \/ LiveOnChain(o, chain)
+NoDetachedHeaderDep == \A t \in pool : HDeps[t] \subseteq BlockIds(chain)
+\* transactions committed only on the abandoned branch that are admissible again: the least set closed under
+\* "resolves against the new chain plus the pool (incl. those already re-admitted), within the ancestor limit"
+RECURSIVE Readmit(_, _, _, _)
+Readmit(cand, P, ch, cf) ==
+  LET ok == { d \in cand \ P : Resolvable(d, P \cup {d}, ch) /\ AncCount(d, P \cup {d}) <= cf.maxAnc }
+  IN IF ok = {} THEN P ELSE Readmit(cand, P \cup ok, ch, cf)
+IntendedAfterReorg(P, ch, k, blks, cf) ==
+  Readmit(DetachedTxs(ch, k) \ AttachedTxs(blks), AfterCommit(P, ch, k, blks), NewChain(ch, k, blks), cf)
+\* checked in the state right after the pool processed a reorg (`last` remembers the state before)
+DetachedReadmitted ==
+  (last.op = "reorg") =>
+     LET cand == (DetachedTxs(last.chainBefore, last.k) \ AttachedTxs(last.blks)) \ last.before
+         want == IntendedAfterReorg(last.before, last.chainBefore, last.k, last.blks, conf)
+     IN  cand \cap pool = cand \cap want
+\* on a node configured for block assembly every entry's stage is where its id stands in the proposal window
+StageMatchesWindow == conf.mine => \A t \in pool : st[t] = Stage(t, chain, conf)
 =============================================================================
